@@ -10,11 +10,15 @@ RULE = ('decks with universe trees (depth 1–3, 1–3 cells per universe, one u
         'FILL by number / inline / starred, with translation, signed axis permutations, Pythagorean and generic '
         'rotations; TRCL-only containers; containers with both), cells of each universe partition space by '
         'construction. Streams: monitor (Lean spec MCNP.locate vs owners + provenance comment + composition of the '
-        'written file, 150 points per deck, under random option sets) and model (Layer-B correspondence). '
+        'written file, 150 points per deck, under random option sets), model (Layer-B correspondence) and fillmodel '
+        '(which cells pot_fill creates, in which order, with which provenance, material, density and through which '
+        'transformations, vs the Lean model). '
         'Non-trivial = at least one filled cell; distinct = distinct (deck text, options).')
-NOT_PROVED = ['which frame map the code picks when a cell has both a FILL transformation and a TRCL (decided by the '
-              'fillmodel correspondence and the Lean locate monitor); how a filler is moved once the map is chosen is '
-              'C04 transformed_tree / transformed_cell (pot_transform, cell_transform model)']
+NOT_PROVED = ['the frame map is chosen and recorded by the pot_fill model (FILL transformation, else the TRCLs: frame_choice, '
+              'fill_transformation_overrides_trcl, moves_transport; tied to the code by the fillmodel stream, which recovers '
+              'from the cell_transform calls of pot_fill the transformations every generated cell went through); how a '
+              'filler is moved by one transformation is C04 transformed_tree / transformed_cell; that the numbers of a TR '
+              'card / inline / starred form denote the rigid motion is C04 (TR card theorems)']
 ASSUMPTIONS = ['universe graphs are acyclic', 'filler cells have non-zero importance']
 
 
@@ -41,23 +45,38 @@ def fillmodel_case(seed, rng, ctx):
     if any(cells[i]['lat'] or cells[i]['fillid'] == 'array' for i in orig_ids if i in cells):
         return None
     items = []
+    inlined = '--always-inline-filling' in args
     for i in orig_ids:
         c = cells[i]
-        items.append('%d:%d:%s:%s:%s' % (i, c['u'], '-' if c['fillid'] is None else c['fillid'], lean.hx(c['mat']),
-                                         lean.hx('' if c['rho'] is None else str(c['rho']))))
+        ft, tc = cap.fill_frames.get(i, (None, []))
+        items.append('%d:%d:%s:%s:%s:%s:%s' % (i, c['u'], '-' if c['fillid'] is None else c['fillid'], lean.hx(c['mat']),
+                                               lean.hx('' if c['rho'] is None else str(c['rho'])),
+                                               '-' if ft is None else ft, ','.join(map(str, tc)) or '-'))
     resp = ctx['drv'].ask('fillmodel ' + ' '.join(items))
     new = sorted(k for k in cells if k not in orig_ids and cells[k]['u'] == 0 and not cells[k]['filled']
                  and cells[k]['origin'])
-    code = ['%d;%s;%s;%s' % (cells[k]['origin'][0][0], ','.join('%d-%d' % ab for ab in cells[k]['origin']),
-                             lean.hx(cells[k]['mat']), lean.hx('' if cells[k]['rho'] is None else str(cells[k]['rho'])))
+    # the transformations each generated cell's filler went through (FILL transformation, else the TRCLs of the
+    # container, level after level): recovered from the cell_transform calls pot_fill made; with
+    # --always-inline-filling the moved filler is inlined and cannot be identified, the column is then dropped
+    code = ['%d;%s;%s;%s;%s' % (cells[k]['origin'][0][0], ','.join('%d-%d' % ab for ab in cells[k]['origin']),
+                                lean.hx(cells[k]['mat']), lean.hx('' if cells[k]['rho'] is None else str(cells[k]['rho'])),
+                                '' if inlined else ','.join(map(str, cap.fill_moves.get(k, ['?']))))
             for k in new]
     fails = []
     model = resp.split()[1:] if resp.startswith('ok') and resp != 'ok none' else resp
+    if inlined and isinstance(model, list):
+        model = [m.rsplit(';', 1)[0] + ';' for m in model]
     if model != code:
         fails.append(fail('disagreement', 'pot_fill: code creates %r / model %r' % (code, model), {'stream': 'fillmodel'},
                           {'deck': text, 'args': args}))
     depth = max([len(cells[k]['origin']) for k in new] or [0])
-    return dict(hashes=[key], nontrivial_hashes=[key] if new else [], dist={'fillmodel:leaves': len(new), 'fillmodel:depth-%d' % depth: 1},
+    both = sum(1 for ft, tc in cap.fill_frames.values() if ft is not None and tc)
+    return dict(hashes=[key], nontrivial_hashes=[key] if new else [],
+                dist={'fillmodel:leaves': len(new), 'fillmodel:depth-%d' % depth: 1,
+                      'fillmodel:leaves-moved': sum(1 for k in new if cap.fill_moves.get(k)),
+                      'fillmodel:leaves-moved-twice-or-more': sum(1 for k in new if len(cap.fill_moves.get(k, [])) >= 2),
+                      'fillmodel:containers-with-fill-transformation-and-trcl': both,
+                      'fillmodel:moves-column-dropped(inline-filling)': int(inlined)},
                 sample={'leaves': code[:6]}, failures=fails)
 
 
